@@ -7,6 +7,8 @@ import Proofs.RdataTextField3
 import Proofs.RdataTextBitmap
 import Proofs.RdataTextB32
 import Proofs.RdataTextField4
+import Proofs.RdataTextApl
+import Proofs.RdataTextWks
 /-! Records: fields joined by spaces, tails, and the schema-generic round trip through `dns.rdata.from_text` (C05). -/
 namespace Model
 
@@ -131,6 +133,49 @@ theorem flatMap_singleton_map {α β : Type} (f : α → β) (l : List α) : l.f
 
 /-! ## tails -/
 
+/-- the gateway / relay value agrees with its type: nothing; an address text as `inet_aton` accepts it (stored and printed
+as written, e.g. what `inet_ntoa` produced when the record came from wire); a name that round-trips -/
+def GatewayOk (st : Style) (env : PEnv) (kind : Nat) (addr : List Nat) (nm : Name) : Prop :=
+  (kind = 0 ∧ addr = [] ∧ nm = []) ∨
+  (kind = 1 ∧ nm = [] ∧ addr ≠ [] ∧ Plain addr ∧ (ip4Aton addr).isSome = true) ∨
+  (kind = 2 ∧ nm = [] ∧ addr ≠ [] ∧ Plain addr ∧ (ip6Aton addr).isSome = true) ∨
+  (kind = 3 ∧ addr = [] ∧ NameFieldOk st env nm)
+
+theorem gateway_tok (st : Style) (env : PEnv) (kind : Nat) (addr : List Nat) (nm : Name) (h : GatewayOk st env kind addr nm) :
+    ∃ g, gatewayText st kind addr nm = some g ∧ Lexes g [⟨.ident, g⟩] ∧
+      parseGatewayTok env kind ⟨.ident, g⟩ = some (addr, nm) ∧ NotHash ⟨.ident, g⟩ := by
+  rcases h with ⟨rfl, rfl, rfl⟩ | ⟨rfl, rfl, hne, hp, hv⟩ | ⟨rfl, rfl, hne, hp, hv⟩ | ⟨rfl, rfl, hn⟩
+  · have hp : Plain [46] := by intro c hc; simp at hc; subst hc; decide
+    refine ⟨[46], rfl, lexes_plain _ (by simp) hp, ?_, notHash_plain _ hp⟩
+    simp [parseGatewayTok, asString, unescapeCP_plain_all _ hp]
+  · refine ⟨addr, by simp [gatewayText], lexes_plain _ hne hp, ?_, notHash_plain _ hp⟩
+    simp [parseGatewayTok, asString, unescapeCP_plain_all _ hp, hv]
+  · refine ⟨addr, by simp [gatewayText], lexes_plain _ hne hp, ?_, notHash_plain _ hp⟩
+    simp [parseGatewayTok, asString, unescapeCP_plain_all _ hp, hv]
+  · obtain ⟨m, hp, hw, ho, hb⟩ := hn
+    obtain ⟨hlex, hnh⟩ := toText_lexes m hw ho
+    refine ⟨toText m, by simp [gatewayText, nameToStyled, hp], hlex, ?_, hnh⟩
+    simp [parseGatewayTok, asName_toText env m hw ho, hb]
+
+/-- the gateway of a record decoded from wire (`inet_ntoa` of the 4 / 16 address octets) is well-formed -/
+theorem gatewayOk_wire4 (st : Style) (env : PEnv) (a b c d : Nat) (ha : a < 256) (hb : b < 256) (hc : c < 256) (hd : d < 256) :
+    ∃ t, ip4Ntoa [a, b, c, d] = some t ∧ GatewayOk st env 1 t [] := by
+  obtain ⟨t, ht, hat⟩ := ip4_roundtrip a b c d ha hb hc hd
+  have htext : t = natToDec a ++ 46 :: (natToDec b ++ 46 :: (natToDec c ++ 46 :: natToDec d)) := by
+    simp [ip4Ntoa] at ht; exact ht.symm
+  have hpl : Plain t := by rw [htext]; exact ip4Ntoa_plain a b c d
+  have hne : t ≠ [] := by
+    rw [htext]; intro e
+    have := congrArg List.length e
+    simp at this
+  exact ⟨t, ht, Or.inr (Or.inl ⟨rfl, rfl, hne, hpl, by simp [hat]⟩)⟩
+
+theorem gatewayOk_wire6 (st : Style) (env : PEnv) (a : Bytes) (hlen : a.length = 16) (ha : ∀ x ∈ a, x < 256) :
+    ∃ t, ip6Ntoa a = some t ∧ GatewayOk st env 2 t [] := by
+  obtain ⟨t, ht, hat⟩ := ip6_roundtrip a hlen ha
+  obtain ⟨hpl, hne⟩ := ip6Ntoa_plain a hlen ha t ht
+  exact ⟨t, ht, Or.inr (Or.inr (Or.inl ⟨rfl, rfl, hne, hpl, by simp [hat]⟩))⟩
+
 def TailOk (st : Style) (env : PEnv) (vals : List FV) : TK → Option FV → Prop
   | .none, none => True
   | .hex, some (.b d) => d ≠ [] ∧ (∀ x ∈ d, x < 256) ∧ ChunkOk st.hexChunk st.hexSep
@@ -144,6 +189,15 @@ def TailOk (st : Style) (env : PEnv) (vals : List FV) : TK → Option FV → Pro
   | .names, some (.nl ns) => ∀ n ∈ ns, NameFieldOk st env n
   | .b64Opt, some (.b d) => ∀ x ∈ d, x < 256
   | .tsigOther, some (.b d) => (∀ x ∈ d, x < 256) ∧ vals[7]? = some (.n d.length)
+  | .apl, some (.apl items) => ∀ it ∈ items, AplItemOk it
+  | .wks, some (.wks addr proto bm) =>
+    (∃ x0 x1 x2 x3, addr = [x0, x1, x2, x3] ∧ x0 < 256 ∧ x1 < 256 ∧ x2 < 256 ∧ x3 < 256) ∧ proto ≤ 255 ∧
+    (∀ x ∈ bm, x < 256) ∧ bm.getLast? ≠ some 0 ∧ bm.length ≤ 8192
+  | .gateway ti ai, some (.gw kind addr nm key) =>
+    vals[ti]? = some (.n kind) ∧ GatewayOk st env kind addr nm ∧
+    (match ai with
+     | none => key = []
+     | some i => ∃ alg, vals[i]? = some (.n alg) ∧ (key = [] → alg = 0) ∧ (∀ x ∈ key, x < 256) ∧ ChunkOk st.b64Chunk st.b64Sep)
   | _, _ => False
 
 def HeadNotHash (toks : List Tok) : Prop := ∀ t, toks.head? = some t → NotHash t
@@ -215,6 +269,77 @@ theorem tail_rt (st : Style) (env : PEnv) (vals : List FV) (tk : TK) (tail : Opt
         · subst e; exact hlex
         · exact il p e
       · simp [parseTailE, parseNames, asName_toText env m hw ho, hb, ipa']
+      · intro t ht; simp at ht; subst ht; exact hnh
+  case wks.some.wks addr proto bm =>
+    obtain ⟨⟨x0, x1, x2, x3, rfl, h0, h1, h2, h3⟩, hpr, hb, hl, hlen⟩ := h
+    obtain ⟨t, ht, hat⟩ := ip4_roundtrip x0 x1 x2 x3 h0 h1 h2 h3
+    have htext : t = natToDec x0 ++ 46 :: (natToDec x1 ++ 46 :: (natToDec x2 ++ 46 :: natToDec x3)) := by
+      simp [ip4Ntoa] at ht; exact ht.symm
+    have hpl : Plain t := by rw [htext]; exact ip4Ntoa_plain x0 x1 x2 x3
+    have hne : t ≠ [] := by
+      rw [htext]; intro e
+      have := congrArg List.length e
+      simp at this
+    have hplp := natToDec_plain proto
+    have hchunks : ∀ ch ∈ (wksPorts bm).map natToDec, ch ≠ [] ∧ Plain ch := by
+      intro ch hch
+      simp only [List.mem_map] at hch
+      obtain ⟨p, _, rfl⟩ := hch
+      exact ⟨natToDec_ne_nil p, natToDec_plain p⟩
+    have hports := parseWksPorts_print (wksPorts bm) [] (wksPorts_le bm hlen)
+    rw [wks_ports_fold bm hb hl] at hports
+    have hgt : ¬ proto > 255 := by omega
+    refine ⟨[(t, [⟨.ident, t⟩]), (natToDec proto, [⟨.ident, natToDec proto⟩]),
+      (joinSep [32] ((wksPorts bm).map natToDec), identToks ((wksPorts bm).map natToDec))], by simp [printTail, ht], ?_, ?_, ?_⟩
+    · intro p hp; simp at hp; rcases hp with e | e | e
+      · subst e; exact lexes_plain t hne hpl
+      · subst e; exact lexes_plain _ (natToDec_ne_nil proto) hplp
+      · subst e; exact lexes_joinSep_chunks _ [32] blanks_space (by simp) hchunks
+    · simp [parseTailE, parseTail, parseWks, asString, unescapeCP_plain_all _ hpl, unescapeCP_plain_all _ hplp, hat,
+        natToDec_ne_nil proto, natToDec_all_isDigit proto, decVal_natToDec, hgt, hports, truncateBitmap_id bm hl]
+    · intro tk htk; simp at htk; subst htk; exact notHash_plain t hpl
+  case apl.some.apl items =>
+    induction items with
+    | nil => exact ⟨[], by simp [printTail, printAplItems], by simp, by simp [parseTailE, parseTail, parseApl], by intro t ht; simp at ht⟩
+    | cons it rest ih =>
+      obtain ⟨t, hp, hpl, hne, hpa⟩ := aplItem_rt it (h it (by simp))
+      obtain ⟨items', ip, il, ipa, _⟩ := ih (fun x hx => h x (by simp [hx]))
+      have ip' : printAplItems rest = some (items'.map (·.1)) := by simpa [printTail] using ip
+      have ipa' : parseApl (items'.flatMap (·.2)) = some rest := by
+        simp only [parseTailE, parseTail, Option.map_eq_some_iff] at ipa
+        obtain ⟨a, ha, hb'⟩ := ipa
+        simp at hb'; subst hb'; exact ha
+      refine ⟨(t, [⟨.ident, t⟩]) :: items', ?_, ?_, ?_, ?_⟩
+      · simp [printTail, printAplItems, hp, ip']
+      · intro q hq; simp at hq; rcases hq with e | e
+        · subst e; exact lexes_plain t hne hpl
+        · exact il q e
+      · simp [parseTailE, parseTail, parseApl, hpa, ipa']
+      · intro tk ht; simp at ht; subst ht; exact notHash_plain t hpl
+  case gateway.some.gw ti ai kind addr nm key =>
+    obtain ⟨hty, hg, hkey⟩ := h
+    obtain ⟨g, hgt, hlex, hparse, hnh⟩ := gateway_tok st env kind addr nm hg
+    cases ai with
+    | none =>
+      simp only at hkey; subst hkey
+      refine ⟨[(g, [⟨.ident, g⟩])], by simp [printTail, hgt], ?_, ?_, ?_⟩
+      · intro p hp; simp at hp; subst hp; exact hlex
+      · simp [parseTailE, parseGateway, hty, hparse]
+      · intro t ht; simp at ht; subst ht; exact hnh
+    | some i =>
+      obtain ⟨alg, halg, h0, hd, hc⟩ := hkey
+      have hpl := b64Encode_plain key
+      have hl := lexes_wordbreak _ hpl st.b64Chunk st.b64Sep hc
+      have hcat := concatIdents_chunks (alg == 0) _ hpl st.b64Chunk (by
+        by_cases hk : key = []
+        · left; simp [h0 hk]
+        · right; exact fun e => hk ((b64Encode_eq_nil key).mp e))
+      refine ⟨[(g, [⟨.ident, g⟩]), (wordbreak (b64Encode key) st.b64Chunk st.b64Sep,
+          identToks (wordbreakChunks (b64Encode key) st.b64Chunk))], by simp [printTail, hgt], ?_, ?_, ?_⟩
+      · intro p hp; simp at hp; rcases hp with e | e
+        · subst e; exact hlex
+        · subst e; exact hl
+      · simp [parseTailE, parseGateway, hty, hparse, halg, hcat, b64_roundtrip key hd]
       · intro t ht; simp at ht; subst ht; exact hnh
   case b64Opt.some.b d =>
     by_cases hd0 : d = []
